@@ -183,6 +183,99 @@ func genOrphans(thorough bool) []Desc {
 	return out
 }
 
+// genCounters: what the records REPORT.  One or two sessions; interim history of session 1 (none /
+// acknowledged / dropped / acknowledged then a second one with the counter fetch failing /
+// acknowledged then a dropped one with other values); then the session ends - StopSession, graceful
+// drain, kill + recovery, death inside StopSession after the StopPending persist / after the
+// failed send - with the counter fetcher working or FAILING for it (the data-plane entry is already
+// gone, the normal order on release), the Stop acknowledged or dropped and re-sent from the queue.
+// With two sessions the second one has its own counter values and a working fetcher.
+func genCounters(thorough bool) []Desc {
+	var out []Desc
+	ids := [][3]int{{}, {11, 12, 13}, {21, 22, 23}}
+	k := 0
+	c := func() uint64 {
+		k++
+		v := special[k%len(special)]
+		if v == 0 {
+			v = 7
+		}
+		return v
+	}
+	for _, two := range []bool{false, true} {
+		for hist := 0; hist < 5; hist++ {
+			for end := 0; end < 9; end++ {
+				if !thorough && two && (end == 5 || end == 6 || end == 8) {
+					continue
+				}
+				var l []Op
+				l = append(l, Op{K: "start", S: 1, ID: ids[1]})
+				if two {
+					l = append(l, Op{K: "start", S: 2, ID: ids[2]})
+				}
+				it := func(fe []int, dn [][2]int) Op {
+					o := Op{K: "itick", Cin: c(), Cout: c(), Fe: fe, Dn: dn}
+					if two {
+						o.Cs = [][3]uint64{{2, c() + 11, c() + 13}}
+					}
+					return o
+				}
+				switch hist {
+				case 1:
+					l = append(l, it(nil, nil))
+				case 2:
+					l = append(l, it(nil, [][2]int{{1, 3}}))
+				case 3:
+					l = append(l, it(nil, nil), it([]int{1}, nil))
+				case 4:
+					l = append(l, it(nil, nil), it(nil, [][2]int{{1, 3}}))
+				}
+				stop := Op{K: "stop", S: 1, Cause: 1, Cin: c(), Cout: c()}
+				gs := Op{K: "gstop", Cin: c(), Cout: c()}
+				if two {
+					gs.Cs = [][3]uint64{{2, c() + 3, c() + 5}}
+				}
+				restart := func() { l = append(l, Op{K: "final"}, Op{K: "restart"}) }
+				switch end {
+				case 0:
+					l = append(l, stop)
+				case 1:
+					stop.Fe = []int{1}
+					l = append(l, stop)
+				case 2:
+					stop.Fe, stop.Dn = []int{1}, [][2]int{{1, 2}}
+					l = append(l, stop)
+				case 3:
+					gs.Fe = []int{1}
+					l = append(l, gs)
+					restart()
+				case 4:
+					gs.Fe, gs.Dn = []int{1, 2}, [][2]int{{1, 2}}
+					l = append(l, gs)
+					restart()
+				case 5:
+					l = append(l, Op{K: "crash"})
+					restart()
+				case 6:
+					stop.Fe, stop.C = []int{1}, 1
+					l = append(l, stop)
+					restart()
+				case 7:
+					stop.Fe, stop.Dn, stop.C = []int{1}, [][2]int{{1, 2}}, 2
+					l = append(l, stop)
+					restart()
+				case 8:
+					l = append(l, gs)
+					restart()
+				}
+				l = append(l, Op{K: "pq"}, Op{K: "pq"}, Op{K: "rtick"}, Op{K: "final"})
+				out = append(out, Desc{3, l})
+			}
+		}
+	}
+	return out
+}
+
 // genRandom: up to 3 sessions, random walk over the op alphabet.  guarded = crash-free histories
 // (only Start/Stop/InterimTick/ProcessQueued/RetryTick/Final, no crash points): the stream in
 // which clause 4 holds by theorem.
@@ -225,6 +318,27 @@ func genOne(r *vh.Rng, guarded bool) Desc {
 		}
 		return dn
 	}
+	randFe := func() []int {
+		var fe []int
+		if r.Chance(1, 2) {
+			return nil
+		}
+		for s := 1; s <= nsess; s++ {
+			if r.Chance(1, 2) {
+				fe = append(fe, s)
+			}
+		}
+		return fe
+	}
+	randCs := func() [][3]uint64 {
+		var cs [][3]uint64
+		for s := 1; s <= nsess; s++ {
+			if r.Chance(2, 3) {
+				cs = append(cs, [3]uint64{uint64(s), pickCtr(r), pickCtr(r)})
+			}
+		}
+		return cs
+	}
 	crashC := func(max int) int {
 		if guarded || !r.Chance(1, 6) {
 			return 0
@@ -263,14 +377,14 @@ func genOne(r *vh.Rng, guarded bool) Desc {
 		case x < 9:
 			s := 1 + r.Intn(nsess)
 			c := crashC(3)
-			d.Ops = append(d.Ops, Op{K: "stop", S: s, Cause: uint32(r.Intn(4)), Cin: pickCtr(r), Cout: pickCtr(r), Dn: randDn(), C: c})
+			d.Ops = append(d.Ops, Op{K: "stop", S: s, Cause: uint32(r.Intn(4)), Cin: pickCtr(r), Cout: pickCtr(r), Fe: randFe(), Dn: randDn(), C: c})
 			delete(live, s)
 			if c != 0 {
 				d.Ops, alive, live = append(d.Ops, Op{K: "crash"}), false, map[int]bool{}
 			}
 		case x < 11:
 			c := crashC(3)
-			d.Ops = append(d.Ops, Op{K: "itick", Cin: pickCtr(r), Cout: pickCtr(r), Dn: randDn(), C: c})
+			d.Ops = append(d.Ops, Op{K: "itick", Cin: pickCtr(r), Cout: pickCtr(r), Cs: randCs(), Fe: randFe(), Dn: randDn(), C: c})
 			if c != 0 {
 				d.Ops, alive, live = append(d.Ops, Op{K: "crash"}), false, map[int]bool{}
 			}
@@ -292,7 +406,7 @@ func genOne(r *vh.Rng, guarded bool) Desc {
 			if guarded {
 				continue
 			}
-			d.Ops = append(d.Ops, Op{K: "gstop", Cin: pickCtr(r), Cout: pickCtr(r), Dn: randDn(), C: r.Intn(4)})
+			d.Ops = append(d.Ops, Op{K: "gstop", Cin: pickCtr(r), Cout: pickCtr(r), Cs: randCs(), Fe: randFe(), Dn: randDn(), C: r.Intn(4)})
 			alive, live = false, map[int]bool{}
 		default:
 			if guarded {
